@@ -108,7 +108,14 @@ public:
 
 		~DisableQueueNotify()
 		{
-			--queue->queueNotifyCounter;
+			{
+				// Decrement under queueListMutex: a thread in wait()/waitFor() evaluates its predicate
+				// with that mutex held, so it either sees the new value or is already blocked when
+				// notify_one is called below. Without the lock the decrement (and the notify) could fall
+				// between the predicate evaluation and the blocking, and the wake-up was lost.
+				std::lock_guard<Mutex> queueListLock(queue->queueListMutex);
+				--queue->queueNotifyCounter;
+			}
 
 			if(queue->doCanNotifyQueueAvailable() && ! queue->emptyQueue()) {
 				queue->queueListConditionVariable.notify_one();
